@@ -10,14 +10,14 @@ LEVEL_TEXT = (
     'from the blocks; (b) in from_blocks each accepted block updates block list, index and dtype directory, column count and block '
     'counter together, unconditionally, with index entries written before the counter advances, after the row-count check and the '
     'zero-width skip; TypeBlocks.append moves _shape/_index/_dtypes/_blocks in lock-step; (c) every normal exit of Frame.__init__ / '
-    'Series.__init__ has passed the final size checks (must-pass-through over all paths, deferred constructors included). '
+    'Series.__init__ has passed the final size checks (must-pass-through over all paths, deferred constructors included); (d) every loop that walks the blocks with a running column offset advances the offset on every path to the next iteration (`continue` included). '
     'Not decided: layout transparency of results (equal answers for every composition of the columns into blocks) — a statement '
     'about array arithmetic at block boundaries; a per-subscript ndim-guard rule was prototyped at design time and rejected as a false '
     'alarm in waiting.')
 
 CLAIM = dict(
     text=LEVEL_TEXT,
-    technique='who-may-call on the raw constructor + lock-step structure of the directory builders + must-pass-through dataflow on the final shape checks',
+    technique='who-may-call on the raw constructor + lock-step structure of the directory builders + must-pass-through dataflow on the final shape checks + all-paths advance of running block offsets',
     design_ref='DESIGN.md section 3 C03',
 )
 
@@ -26,4 +26,5 @@ def run(ctx: Ctx) -> None:
     blockrules.raw_constructor_sites(ctx)
     blockrules.from_blocks_lockstep(ctx)
     blockrules.final_shape_checks(ctx)
+    blockrules.offset_discipline(ctx)
     atomic.d_atomic(ctx, only=('type_blocks.',))
